@@ -626,6 +626,29 @@ pub fn run(env: &mut Env) {
             (0..ops.len()).map(move |k| Case { start_ns: start, start_off: offs[(k + sec as usize) % 3], ops: vec![ops[k].clone()] })
         })
     });
+    if !t {
+        // quick: every second of the day all the same, with the largest counts of every unit and the
+        // operand that brings the time exactly to 24:00 (a relation between receiver and argument
+        // that no list of boundary values contains)
+        env.run_enum::<History, _>(86_400, move |sec| {
+            [500_000_000u64, 999_999_999, 300_000_000].into_iter().flat_map(move |sub| {
+                let start = sec * 1_000_000_000 + sub;
+                let mut v: Vec<Case> = Vec::new();
+                for unit in 1..=6u8 {
+                    for count in [u32::MAX, u32::MAX - 167_295, 1 << 31] {
+                        v.push(Case { start_ns: start, start_off: if sec % 2 == 0 { 0 } else { -34_200 }, ops: vec![Op::Unit { unit, count, sub: (sec + unit as u64) % 2 == 0 }] });
+                    }
+                }
+                let rest = 86_400_000_000_000 - start;
+                for (sub_op, assign) in [(false, false), (false, true)] {
+                    v.push(Case { start_ns: start, start_off: 0, ops: vec![Op::TimeOp { ns: rest.min(86_399_999_999_999), sub: sub_op, assign }] });
+                }
+                v.push(Case { start_ns: start, start_off: 3_600, ops: vec![Op::TimeOp { ns: start, sub: true, assign: sec % 2 == 0 }] });
+                v.into_iter()
+            })
+        });
+        env.exhaustive_parts.push("C08 (quick): every second of the day x 3 sub-second parts x the largest counts of the six units, and the Time operand that completes / cancels the receiver exactly".into());
+    }
     env.exhaustive_parts.push(format!(
         "C08: every {} second of the day x sub-second in {{0, 1, 5e8, 999999999}} x {} single operations",
         if t { "".to_string() } else { format!("{}th", stride) },
